@@ -135,7 +135,7 @@ func TestConcurrent(t *testing.T) {
 		s.Class("concurrent-writer-commits-checked", int64(ws.WriterCommits))
 		if f != nil && f.Class == "workload-hang" {
 			s.Inconclusive(f.Msg)
-			continue
+			return // stuck goroutines stay behind; further runs would only wait for their time limits
 		}
 		if f != nil {
 			s.Judge(t, c, f)
